@@ -151,6 +151,7 @@ def instances(tier: str) -> list[dict]:
             out.append({"part": "rules", "n": n, "should_only": so})
     for n in range(1, 7):
         out.append({"part": "aggr", "n": n})
+    out.append({"part": "reconf", "L": 3 if tier == "quick" else 4})
     return out
 
 
@@ -163,7 +164,61 @@ def label_of(i) -> str:
 # ---------------------------------------------------------------------------------------------------
 
 
+# --- (reconf): one DiagramRule object re-pointed between applications -------------------------------------
+
+RECONF_NODES = ["p", "p.a", "p.b", "q", "q.a", "q.b"]
+RECONF_VARS = [("p.a", "p.b"), ("p.b", "p.a"), ("q.a", "q.b"), ("q.b", "q.a")]
+RECONF_VOCAB = [("from_file", "f1"), ("from_file", "f2"), ("with_base_module", "p"), ("with_base_module", "q"), ("apply", None)]
+RECONF_FILES = {"f1": "@startuml\n[a] --> [b]\n@enduml\n", "f2": "@startuml\n[b] --> [a]\n@enduml\n"}
+
+
+def reconf_outcome(L: int, ev, choose):
+    """A history of re-configurations and applications of ONE DiagramRule object; the last application must give
+    what a fresh object with the then-current file and base module gives."""
+    from pathlib import Path
+
+    from pytestarch import DiagramRule
+
+    paths = {k: write_diagram(f"reconf_{os.getpid()}_{k}.puml", v) for k, v in RECONF_FILES.items()}
+    rule = DiagramRule().from_file(Path(paths["f1"])).with_base_module("p")
+    cur = {"file": "f1", "base": "p"}
+    hist = []
+    for n in range(L):
+        name, arg = RECONF_VOCAB[choose(n)]
+        hist.append((name, arg))
+        if name == "from_file":
+            rule.from_file(Path(paths[arg]))
+            cur["file"] = arg
+        elif name == "with_base_module":
+            rule.with_base_module(arg)
+            cur["base"] = arg
+        else:
+            outcome_with_records(rule, ev)
+    got = outcome_with_records(rule, ev)
+    fresh = outcome_with_records(DiagramRule().from_file(Path(paths[cur["file"]])).with_base_module(cur["base"]), ev)
+    if got != fresh:
+        return ("MISMATCH", f"what a fresh DiagramRule on {cur} gives: {fresh}", f"{got}")
+    return ("OK", got[0])
+
+
+def work_reconf(inst) -> dict:
+    L = inst["L"]
+    no_var = [(x, y) for x in RECONF_NODES for y in RECONF_NODES if x != y and (x, y) not in RECONF_VARS]
+    arch = SymArch(RECONF_NODES, extra_no_var=no_var)
+
+    def fn():
+        return reconf_outcome(L, arch.ev, lambda n: ENGINE.choice(("h", n), len(RECONF_VOCAB)))
+
+    def make_payload(assign):
+        return {"kind": "reconf", "L": L, "assign": [[list(k), v] for k, v in sorted(assign.items(), key=str)]}
+
+    keys = [(("e", x, y), 2) for x, y in arch.pairs] + [(("h", n), len(RECONF_VOCAB)) for n in range(L)]
+    return check_no_mismatch(label_of(inst), fn, 1 << 17, make_payload, replay_detail, all_keys=keys, sample={"vocabulary": [f"{a}({b})" for a, b in RECONF_VOCAB], "modules": RECONF_NODES})
+
+
 def work(inst: dict) -> dict:
+    if inst["part"] == "reconf":
+        return work_reconf(inst)
     if inst["part"] == "rules":
         return work_rules(inst)
     if inst["part"] == "aggr":
@@ -342,6 +397,12 @@ def work_aggr(inst) -> dict:
 
 def replay_detail(payload: dict):
     kind = payload["kind"]
+    if kind == "reconf":
+        assign = {tuple(k): v for k, v in payload["assign"]}
+        edges = [(k[1], k[2]) for k, v in assign.items() if k[0] == "e" and v == 1]
+        o = reconf_outcome(payload["L"], real_architecture(RECONF_NODES, edges), lambda n: assign.get(("h", n), 0))
+        hist = [RECONF_VOCAB[assign.get(("h", n), 0)] for n in range(payload["L"])]
+        return o[0] == "OK", f"DiagramRule().from_file(f1).with_base_module('p') then {hist} then assert_applies on imports {edges}: " + ("as a fresh object" if o[0] == "OK" else f"expected {o[1]}, got {o[2]}"), {"outcome": [str(x)[:300] for x in o]}
     if kind == "aggr":
         f = set(payload["failing"])
         o = aggr_outcome(payload["n"], lambda i: i in f)
@@ -396,6 +457,7 @@ def run(tier: str, only: str | None = None) -> int:
         "modes": "should-only and should; with_base_module vs names written in full",
         "generated_rules": "every arrow relation over 2-4 components (symbolic arrow bits)",
         "aggregation": "1-6 rule appliers with symbolic pass/fail",
+        "reconfiguration": "histories of length 3 (quick) / 4 (thorough) over {from_file(f1|f2), with_base_module(p|q), apply} on one DiagramRule object",
         "path_cap_per_summary": CAPS[tier],
     }
     rep.assumptions = [
